@@ -269,8 +269,15 @@ func GenXMPRec(r *core.Rng, density int, maxLen int) *XMPRec {
 			if r.Chance(1, 8) {
 				n = 0 // a zero-item array (written as <rdf:Bag/> or <rdf:Bag></rdf:Bag>)
 			}
+			if r.Chance(1, 60) {
+				n = r.Pick(255, 256, 257, 300) // more items than fit a byte counter
+			}
 			vals := make([]string, n)
 			for i := range vals {
+				if n > 100 {
+					vals[i] = XText(r, r.Range(1, 6))
+					continue
+				}
 				vals[i] = XText(r, xLen(r, maxLen))
 			}
 			rec.Props = append(rec.Props, XProp{NS: "dc", Name: name, Kind: kind, Values: vals, Elem: true})
